@@ -125,8 +125,9 @@ def sweep(ctx, n):
                 if cls == "TriangularMesh":
                     status = (o.status_open, o.status_disconnected, o.status_reoriented) == (base.status_open, base.status_disconnected, base.status_reoriented) \
                         and (via != "plain" or np.array_equal(o.faces, base.faces)) and len(o.faces) == len(base.faces)
-                if not (err < tol and jpat and status):
-                    what = "field" if not err < tol else ("inside/outside" if not jpat else "mesh status/orientation")
+                tol_here = tol if via == "plain" else max(tol, 1e-9)  # another constructor may triangulate / order the faces differently: equal field, different rounding
+                if not (err < tol_here and jpat and status):
+                    what = "field" if not err < tol_here else ("inside/outside" if not jpat else "mesh status/orientation")
                     sk = f"2^{k}" if binary else f"1e{k}"
                     fails.append({"key": f"unit-scale:{cls}:{sk}", "desc": f"{what} changes with the length unit (scale {sk}, rel. err {err:.2g}" + (f", built with {via}" if via != "plain" else "") + ")",
                                   "replay": {"class": cls, "scale": s, "excitation_factor": e, "params_at_scale_1": {a: np.asarray(v).tolist() for a, v in kw.items()},
